@@ -33,6 +33,8 @@ pub struct Stats
     pub digests : Vec<(u64, u64)>,
     pub want_digests : bool,
     pub cur_digest : H64,
+    /* signatures this worker has already minimised and reported: seeing one again costs nothing */
+    pub reported : BTreeSet<String>,
 }
 
 impl Stats
@@ -49,6 +51,7 @@ impl Stats
             digests : vec![],
             want_digests : false,
             cur_digest : H64::new(),
+            reported : BTreeSet::new(),
         }
     }
 
@@ -781,13 +784,12 @@ pub fn set_sched(op : &mut Op, s : SchedSpec)
 }
 
 /* Turn raw violations of a history into reportable findings: one per signature, minimised. */
-pub fn hist_findings(prop : &str, case : &Case, vs : Vec<Violation>) -> Vec<Found>
+pub fn hist_findings(prop : &str, case : &Case, vs : Vec<Violation>, reported : &mut BTreeSet<String>) -> Vec<Found>
 {
     let mut out = vec![];
-    let mut seen = BTreeSet::new();
     for v in vs
     {
-        if v.prop != prop || !seen.insert(v.sig.clone())
+        if v.prop != prop || !reported.insert(v.sig.clone())
         {
             continue;
         }
@@ -824,7 +826,7 @@ pub fn run_one(cfg : &Config, k : u64, stats : &mut Stats) -> Vec<Found>
             let case = Gen::new(seed, gcfg).case();
             if k < 3 * cfg.workers { stats.sample(case.to_j()); }
             let vs = hist_run(&cfg.prop, &case, Some(stats));
-            if vs.iter().any(|v| v.prop == cfg.prop) { hist_findings(&cfg.prop, &case, vs) } else { vec![] }
+            if vs.iter().any(|v| v.prop == cfg.prop) { let mut rep = std::mem::take(&mut stats.reported); let f = hist_findings(&cfg.prop, &case, vs, &mut rep); stats.reported = rep; f } else { vec![] }
         },
         "C03" | "C04" | "C05" | "C06" => sched_engine::run_one(cfg, seed, k, stats),
         "C11" => crash_engine::run_one(cfg, seed, k, stats),
